@@ -554,6 +554,7 @@ impl C16 {
         cfg.capacity = *rng.pick(&[16usize, 65536]);
         cfg.strategy = rng.pick(&[Strategy::RunLong, Strategy::Uniform, Strategy::LowestId, Strategy::HighestId]).clone();
         cfg.budget = 20_000;
+        cfg.workers = *rng.pick(&[None, None, Some(1usize)]);
         if front_end == FrontEnd::Stdin {
             cfg.stdin_chunks = match rng.below(3) {
                 0 => vec![],
